@@ -110,6 +110,19 @@ class CallMixin:
         if fn is None:
             c, fn = frontend.find_method(mod, cname, mname, after=cname)
         if fn is None:
+            # base class imported from another module: class Master(loader.Loader)
+            cnode = mod.defs.get(cname)
+            for b in (cnode.bases if cnode is not None else []):
+                if isinstance(b, ast.Attribute) and isinstance(b.value, ast.Name) and b.value.id in mod.imports:
+                    tgt = mod.imports[b.value.id]
+                    full = '%s.%s' % tgt if isinstance(tgt, tuple) else tgt
+                    if frontend.module_exists(full):
+                        mod2 = frontend.module(full)
+                        c, fn = frontend.find_method(mod2, b.attr, mname)
+                        if fn is not None:
+                            mod = mod2
+                            break
+        if fn is None:
             raise CheckerError('super().%s not found' % mname)
         f = FuncVal('repo', qual='%s:%s.%s' % (mod.name, c, mname), node=fn, module=mod, selfv=selfv, cls=c)
         f.py = None     # static dispatch
